@@ -76,6 +76,11 @@ def iena2_lines(ctx):
         f = {k: "5" for k, _ in IENA_HDR}
         f["parameters"] = L([qparam(rng, n), qparam(rng, 3)])
         lines.append(gen.H("IENAQ", gen.sets(f) + ["pack", "obs"]))
+    # directed: an EMPTY dataset in the first / a middle / the last position, and only empty datasets
+    for shape in ([0], [0, 0], [3, 0], [0, 3], [2, 0, 5], [1, 4, 0], [0, 0, 0], [5, 0, 0]):
+        f = {k: str(rng.boundary(b)) for k, b in IENA_HDR}
+        f["parameters"] = L(qparam(rng, n) for n in shape)
+        lines.append(gen.H("IENAQ", gen.sets(f) + ["pack", "obs"]))
     for k, b in IENA_HDR + [("paramid", 16)]:
         for v in bnd(b):
             f = {kk: "3" for kk, _ in IENA_HDR}
@@ -644,6 +649,12 @@ def oracles_C01(ctx, hints):
         params = [[rng.boundary(16), rng.bytes_(rng.choice([0, 1, 2, 3, 4, 5, 7, 30])).hex()] for _ in range(i % 6)]
         if run("ienaq_layout", check_ienaq_layout, {"fields": f, "params": params}, {"class": "IENAQ", "check": "layout"}):
             break
+    else:
+        for shape in ([0], [0, 0], [3, 0], [0, 3], [2, 0, 5], [1, 4, 0], [0, 0, 0], [5, 0, 0]):
+            f = {kk: rng.boundary(b) for kk, b in IENA_HDR}
+            params = [[rng.boundary(16), rng.bytes_(n).hex()] for n in shape]
+            if run("ienaq_layout", check_ienaq_layout, {"fields": f, "params": params}, {"class": "IENAQ", "check": "layout"}):
+                break
     for cls in ("IENAD", "IENAN"):
         for i in range(ctx.scale(48, 1500) * k):
             f = {kk: rng.boundary(b) for kk, b in IENA_HDR}
